@@ -14,9 +14,9 @@ SW = {"update_means": "?", "update_variances": "?", "update_weights": "?", "mean
 # name -> (function key, parameter types, track_s, assumptions to run under, expected return type or None)
 ROOTS = {
     # ---- GMM ---------------------------------------------------------------------------------------
-    "gmm.lwl": ("gmm:log_weighted_likelihood", {"data": "U [N,D]", "machine": "obj:GMMMachine"}, True, (None,), None),
-    "gmm.ll": ("gmm:log_likelihood", {"data": "U [N,D]", "machine": "obj:GMMMachine"}, True, (False, True), None),
-    "gmm.ll1": ("gmm:log_likelihood", {"data": "U [D]", "machine": "obj:GMMMachine"}, True, (False,), None),
+    "gmm.lwl": ("gmm:log_weighted_likelihood", {"data": "U eqv [N,D]", "machine": "obj:GMMMachine"}, True, (None,), None),
+    "gmm.ll": ("gmm:log_likelihood", {"data": "U eqv [N,D]", "machine": "obj:GMMMachine"}, True, (False, True), None),
+    "gmm.ll1": ("gmm:log_likelihood", {"data": "U eqv [D]", "machine": "obj:GMMMachine"}, True, (False,), None),
     "gmm.e_step": ("gmm:e_step", {"data": "U [N,D]", "machine": "obj:GMMMachine"}, True, (False, True), None),
     "gmm.m_step": ("gmm:m_step", {"statistics": "list:B:obj:GMMStats", "machine": "obj:GMMMachine"}, True, (None,), "tuple:obj:GMMMachine|LOG U-d []"),
     "gmm.ml": ("gmm:ml_gmm_m_step", dict(SW, machine="obj:GMMMachine", statistics="obj:GMMStats"), True, (None,), None),
@@ -41,7 +41,7 @@ ROOTS = {
     "ls.machines": ("linear_scoring:linear_scoring", {"models_means": "list:M:obj:GMMMachine", "ubm": "obj:GMMMachine", "test_stats": "obj:GMMStats", "frame_length_normalization": "false"}, True, (None,), "1 S [M,K]"),
     # ---- i-vector (counts are combined with prior precisions: S not tracked) -----------------------------
     "iv.e_step": ("ivector:e_step", {"machine": "obj:IVectorMachine", "data": ST}, False, (None,), None),
-    "iv.m_step": ("ivector:m_step", {"machine": "obj:IVectorMachine", "stats": "obj:IVectorStats"}, False, (None,), None),
+    "iv.m_step": ("ivector:m_step", {"machine": "obj:IVectorMachine", "stats": "obj:IVectorStats"}, True, (None,), None),
     "iv.project": ("ivector:IVectorMachine.project", {"stats": "obj:GMMStats"}, False, (None,), "1 [T]"),
     "iv.fit": ("ivector:IVectorMachine.fit", {"X": ST}, False, (False, True), None),
     # ---- factor analysis ----------------------------------------------------------------------------------
@@ -52,6 +52,10 @@ ROOTS = {
     "fa.isv.score": ("factor_analysis:ISVMachine.score", {"latent_z": "1 [F]", "data": ST}, False, (False,), "1 []"),
     "fa.jfa.score": ("factor_analysis:JFAMachine.score", {"model": "tuple:1 [R]|1 [F]", "data": ST}, False, (False,), "1 []"),
     "fa.estimate_ux": ("factor_analysis:FactorAnalysisBase.estimate_ux", {"X": ST}, False, (False,), "U [F]"),
+    "fa.fn_x": ("factor_analysis:FactorAnalysisBase._compute_fn_x", {"X_i": ST}, True, (None,), "U S [F]"),
+    "fa.fn_x_ih": ("factor_analysis:FactorAnalysisBase._compute_fn_x_ih", {"x_i": "obj:GMMStats", "latent_z_i": "1 [F]", "latent_y_i": "1 [R]"}, True, (None,), "U S [F]"),
+    "fa.fn_z_i": ("factor_analysis:FactorAnalysisBase._compute_fn_z_i", {"X_i": ST, "latent_x_i": "1 [R,K]", "latent_y_i": "1 [R]", "n_acc_i": "S [C]", "f_acc_i": "U S [C,D]"}, True, (None,), "U S [F]"),
+    "fa.fn_y_i": ("factor_analysis:FactorAnalysisBase._compute_fn_y_i", {"X_i": ST, "latent_x_i": "1 [R,K]", "latent_z_i": "1 [F]", "n_acc_i": "S [C]", "f_acc_i": "U S [C,D]"}, True, (None,), "U S [F]"),
     "fa.create_UVD": ("factor_analysis:FactorAnalysisBase.create_UVD", {}, False, (None,), None),
     # ---- linear transforms -----------------------------------------------------------------------------------
     "wccn.fit": ("wccn:WCCN.fit", {"X": "U [N,D]", "y": "list:N:*"}, True, (False, True), None),
